@@ -13,6 +13,7 @@
 (***************************************************************************)
 EXTENDS Integers, Sequences, FiniteSets, TLC, Json
 
+\* (PKind is the pipeline's kind as a notion; the constructor takes its name in any letter case)
 CONSTANTS Dim,        \* 0, 1 or 2: RayTransferPipeline0D / 1D / 2D
           PKind,      \* "power" or "radiance"
           MaxHist
